@@ -34,7 +34,7 @@ COMPONENTS = dict(real=["hio.core.http.serving.Server/BareServer/Requestant/Resp
                   stub=["kernel sockets (FakeSocket)", "byzantine and sibling raw peers"], model=["hiosim/httpref.py (strict response parser)"])
 ASSUMPTIONS = ["must-be-errored is demanded only for responses that violate the HTTP/1.1 grammar beyond doubt (status line, header line "
                "without any colon, chunk-size that is not 1*HEXDIG)"]
-PROBES = ["reconnecting_client", "server_wsgi", "server_bare", "client_mode", "truncated_fin", "truncated_rst", "sibling_completed", "errored_response_reported",
+PROBES = ["dictable_client", "reconnecting_client", "server_wsgi", "server_bare", "client_mode", "truncated_fin", "truncated_rst", "sibling_completed", "errored_response_reported",
           "redirect_without_location", "chunk_size_mutation", "absolute_url_mutation", "long_line", "random_bytes", "valid_message_mutated"]
 BOUNDS = dict(quick=dict(byz_connections=3), thorough=dict(byz_connections=4))
 TIERS = dict(quick=dict(cases=40000, wall=60.0), thorough=dict(cases=1200000, wall=420.0))
@@ -353,7 +353,8 @@ def sib_responses(sib):
 
 SSE_HOSTILE = [b"retry: " + b"9" * 400 + b"\n\n", b"id: \xe2\x98\x83\ndata: x\n\n", b"retry: -5\ndata: y\n\n", b"id: a\x00b\ndata: z\n\n",
                b"id: \xff\xfe\nretry: 1_0\ndata: w\n\n", b"retry: \xd9\xa1\xd9\xa2\n\n", b"id: 7\nretry: 250\ndata: ok\n\n", b": just a comment\n\n",
-               b"id: " + b"i" * 300 + b"\ndata: long id\n\n", b"retry: 1e3\nid:\ndata: empty id\n\n"]
+               b"id: " + b"i" * 300 + b"\ndata: long id\n\n", b"retry: 1e3\nid:\ndata: empty id\n\n",
+               b"data: " + b"9" * 4400 + b"\n\n", b"data: " + b"[" * 1500 + b"\n\n", b"data: {\"a\": 1e999999}\n\n", b"data: {\"a\":\n\n"]
 
 
 def client_case(tape, tier, res):
@@ -387,6 +388,9 @@ def client_case(tape, tier, res):
         net.current_owner = "client0"
         tyme = [0.0]
         ckwa = dict(reconnectable=True, tymeout=0.5) if reconnecting else {}
+        if tape.flag("dictable_client", 1, 3):
+            ckwa["dictable"] = True      # bodies and event data are also tried as JSON
+            res.probes["dictable_client"] += 1
         client = hclienting.Client(hostname="127.0.0.1", port=lab.port, tymth=lambda: tyme[0], **ckwa)
         client.reopen()
         net.current_owner = None
